@@ -145,6 +145,21 @@ CHECKS["C10"] = (
     "DESIGN.md §4 C10",
 )
 
+CHECKS["C08"] = (
+    "E-CH",
+    "CrossHair/z3 symbolic execution of each public operation on parser shapes with symbolic leaves and a solver-chosen invalid-input bit; deep before/after snapshots (value, type, identity) of arguments, parser defaults and process globals",
+    "Bounded symbolic model checking of the real code. For 12 operations (parse_object with dict and Namespace, parse_args with "
+    "namespace=, validate on parsed and on hand-built namespaces, dump, save, merge_config, strip_unknown, instantiate_classes, "
+    "get_defaults, format_help) and 8 parser shapes (11 thorough; nested lists, tuples holding lists, dicts of lists, sets, dataclasses, "
+    "class specs from defaults, class groups, groups) CrossHair exhausts the operation's path tree on symbolic leaves with and without "
+    "an invalid value injected (the call then raises midway); a deep snapshot of every argument (structure, concrete container types, "
+    "id() of every nested container, leaf values), of get_defaults(), cwd, os.environ, argparse.Namespace and sys.argv is compared "
+    "afterwards. instantiate_classes is run twice: same classes, no object shared between the two results.",
+    "Trusted: CrossHair/z3, the text stub for dump/save. Outside: lists of argument strings (only the empty argv with a namespace= is "
+    "exercised), I/O failures during save, parsers outside the shape list.",
+    "DESIGN.md §4 C08",
+)
+
 NOT_APPLICABLE = {
     "C13": "the resolver's only input is source code on disk (inspect.getsource/ast.parse/import); a symbolic program cannot be "
     "represented for that code and types/defaults are part of the program, so no dimension of the quantifier can be a solver variable",
